@@ -173,9 +173,12 @@ def r101(an, rep, collapse, expand, fmt, is_lt, lim):
     bdom = range(0, lim["max_bytecode"] + 1)
     ldom = range(lim["min_line"], lim["max_line"] + 1)
 
+    from .c02 import module_consts as _mc10
+    _consts = {k: v for k, v in _mc10(an, collapse.module.name, (3, 10) if is_lt else (3, 9)).items() if "." not in k and isinstance(v, (int, bool))}
+
     def ev(pred, cur_item, prev_item):
         try:
-            return bool(feval(pred, {flagp: is_lt, cur: cur_item, prev: prev_item}))
+            return bool(feval(pred, {**_consts, flagp: is_lt, cur: cur_item, prev: prev_item}))
         except (FevalError, TypeError, KeyError) as ex:
             raise AnalysisError(f"{collapse.qual}: merge predicate not evaluable: {ex}")
 
@@ -307,7 +310,16 @@ def r101_body(an, rep, collapse):
 
 def _expand_constants(expand: FunctionInfo, is_lt: bool) -> Dict[str, object]:
     flagp = expand.params[1]
-    env: Dict[str, object] = {flagp: is_lt}
+    env: Dict[str, object] = {}
+    for name, exprs in getattr(expand.module, "assigns", {}).items():  # module-level integer constants the function may name
+        if len(exprs) == 1:
+            try:
+                v = feval(exprs[0], {})
+                if isinstance(v, int):
+                    env[name] = v
+            except Exception:
+                pass
+    env[flagp] = is_lt
     for st in expand.node.body:
         if isinstance(st, ast.Assign) and isinstance(st.targets[0], ast.Name):
             try:
